@@ -32,7 +32,7 @@ TraceNext ==
   /\ l < Len(T[tid].events)
   /\ LET e   == T[tid].events[l + 1]
          cfg == T[tid].cfg
-         bad == Select(Failed(cfg, S, e), Props)
+         bad == Names2(Failed(Props, cfg, S, e))
      IN IF bad = {}
         THEN /\ l' = l + 1
              /\ S' = Adopt(cfg, S, e)
